@@ -133,6 +133,7 @@ def run(chk, replay=None):
         cases += [c1, c15]; tags += ["pid/" + mode, "assembly/" + mode]; meta += [(mode, params, evs)] * 2
     impl, model = correspondence(chk, cases, tags, exe, drv, okb=okb,
         describe=lambda c, o: {"stream": "PIDControllerStream" if c[3] == 1 else "examples/pid.rs StreamPID", "params(sp,kp,ki,kd)": c[4:8], "events": c[8:], "per_event(update,get,same)": o})
+    _nv0 = len(chk.violations)
     # --- metamorphic checks on the implementation
     # (a) controller vs the crate's own stream assembly on present-only histories: numerically equal (+-0 identified)
     n_asm = 0
@@ -149,7 +150,7 @@ def run(chk, replay=None):
                 chk.violation("controller and stream assembly disagree at sample %d: %s vs %s" % (j, gx, gy),
                               {"case": cases[i], "assembly_case": cases[i + 1], "impl": impl[i], "impl_assembly": impl[i + 1]}, True)
                 break
-        if chk.violations: break
+        if len(chk.violations) > _nv0: break
     chk.cov["assembly_outputs_compared"] = n_asm
     # (b) shift invariance and (c) power-of-two scaling, on the implementation
     sh_cases, sh_ref, sc_cases, sc_ref = [], [], [], []
@@ -185,7 +186,7 @@ def run(chk, replay=None):
                 if fy != fx * Fraction(2) ** k:
                     chk.violation("scaling setpoint and inputs by 2^%d does not scale the output exactly: %s vs %s" % (k, float(fx), float(fy)),
                                   {"case": cases[i], "k": k, "impl": impl[i], "impl_scaled": o}, True); break
-        if chk.violations: break
+        if len(chk.violations) > _nv0: break
     chk.cov["shift_histories_checked"] = len(sh_cases); chk.cov["pow2_scaled_outputs_checked"] = n_sc
     chk.notes.append("power-of-two scaling on binary32 is measured on the implementation (exact absent overflow/underflow); proved as linearity on the real-number instance (C04_linear_R)")
     chk.notes.append("agreement with the stream assembly: the example's StreamPID is compiled from the current source into the harness and compared on present-only histories (numerically equal, +-0 identified); its Gallina transcription (Model/Assembly.v) is tied to it bit-exactly on all histories; equality of the two models is not proved (partial)")
